@@ -295,7 +295,10 @@ def composite_federation_contract(method):
         for name in ('stix_id', 'query'):
             if name in kws and ast.unparse(kws[name]) != name and not (name == 'query' and ast.unparse(kws[name]) in ('query',)):
                 x.oblige(f'call(member): the caller\'s own `{name}` is forwarded', p.pc, z3.BoolVal(False), p.exact, 'call-requires')
+        if method == 'get': yield p, Val('opaque', x='answer'); return
         yield p, SetV(MEMBER_ANS(recv.t))
+
+    def m_append_answer(x, recv, args, p): return Val('opaque', x="all_data'")          # (get: the selection among the answers is the business of composite_get_contract)
 
     def m_extend(x, recv, args, p):
         if args[0].sort != 'set': raise Unsupported('extend with ' + args[0].sort)
@@ -336,16 +339,20 @@ def composite_federation_contract(method):
         if view is None: return z3.BoolVal(False)
         return z3.ForAll([s], view[s] == z3.Exists([j], z3.And(0 <= j, j < N_MEMBERS, MEMBER_ANS(j)[s])))
     params = {'self': Val('composite', x={}), '_composite_filters': down}
-    params['stix_id' if method == 'all_versions' else 'query'] = 'str' if method == 'all_versions' else 'opaque'
+    params['query' if method == 'query' else 'stix_id'] = 'opaque' if method == 'query' else 'str'
+    is_get = method == 'get'
     c = Contract(f'stix2/datastore/__init__.py::CompositeDataSource.{method}', props=['C18', 'C12'], params=params,
                  requires=[('members', lambda a: N_MEMBERS >= 0)],
-                 ensures=[('the answer is the union of what the members answer (each distinct (id, version) once)', ens)],
-                 raises={'AttributeError': lambda a: N_MEMBERS == 0},
+                 ensures=[] if is_get else [('the answer is the union of what the members answer (each distinct (id, version) once)', ens)],
+                 raises={'AttributeError': (None if is_get else (lambda a: N_MEMBERS == 0))},
+                 cut=(lambda st: isinstance(st, ast.Assign) and ast.unparse(st).startswith('stix_obj = latest_ver')) if is_get else None,
+                 note='forwarding slice: up to the selection among the answers' if is_get else '',
                  handlers={'self.has_data_sources': h_has, 'FilterSet': h_filterset, 'deduplicate': h_dedup, 'len': h_len},
                  registry_ext={'attrs': {('composite', 'data_sources'): attr_ds, ('composite', 'filters'): attr_filters},
                                'methods': {('.add', 'set'): rebinding(m_fs_add), ('.extend', 'litlist'): rebinding(m_extend), ('.extend', 'set'): rebinding(m_extend),
+                                           ('.append', 'litlist'): rebinding(m_append_answer), ('.append', 'opaque'): rebinding(m_append_answer), ('.append', 'set'): rebinding(m_append_answer),
                                            ('.' + method, 'member'): m_member_call}},
-                 loops={0: {'kind': 'inv', 'inv': inv}},
+                 loops={0: {'kind': 'inv', 'inv': (lambda x, env, i, it: z3.BoolVal(True)) if is_get else inv}},
                  havoc={'all_data': lambda v: SetV(z3.FreshConst(E.SetS, 'all_data')), 'data': lambda v: SetV(z3.FreshConst(E.SetS, 'data'))},
                  assumptions=['callee contracts: FilterSet.add (proved: view after == view before | argument), deduplicate (proved: same set of (id, version) identities), the members\' own '
                               f'{method} (an arbitrary answer per member); a FilterSet is abstracted to the set of its filters, answers to sets of (id, version) identities'])
